@@ -140,14 +140,22 @@ def main():
         h = collections.Counter()
         ports = rng.sample([443, 44330, 8443, 9443, 4433, 1234, 50000], rng.choice([1, 2, 3]))
         conns = []
+        extra = [p for p in ports if p not in (443, 44330) and rng.randrange(2) > 0]
         for j, sp in enumerate(ports):
             if rng.randrange(2) == 0:
-                conns.append(pool.quic_conn(rng, h, idx=j + 1, server_port=sp, napp=3))
+                ends = None
+                if sp not in (443, 44330) and sp not in extra and rng.randrange(3) == 0:
+                    # a client whose UDP port has the same number as the server's (the port is not watched, so the roles come from the
+                    # first datagram): rewriting ports must go by role, not by number
+                    v6 = bool(rng.randrange(2))
+                    c_, s_ = tlsgen.endpoints(rng, v6, server_port=sp, idx=j + 1)
+                    ends = (capgen.Endpoint(c_.mac, c_.ip, sp), s_)
+                    hist["client-port=server-port"] += 1
+                conns.append(pool.quic_conn(rng, h, idx=j + 1, server_port=sp, napp=3, **({"ends": ends, "v6": len(ends[0].ip) == 16} if ends else {})))
             else:
                 conns.append(pool.tls_conn(rng, table, h, idx=j + 1, server_port=sp, nrec=3, reclen=40))
         case = pool.build(rng, conns, h)
         argv = []
-        extra = [p for p in ports if p not in (443, 44330) and rng.randrange(2) > 0]
         for p in extra:
             if rng.randrange(2) or not argv:
                 argv += ["-p", str(p)]
@@ -159,6 +167,14 @@ def main():
             argv.append("-m")
         elif mode.startswith("pairs"):
             prs = ["%d:%d" % (p, rng.choice([8081, 9000, 10000 + j])) for j, p in enumerate(ports) if rng.randrange(4) > 0]
+            # pairs that no connection of the capture uses but that a second look-up would hit: the fallback port 8080 as a left side,
+            # and a chain a:b b:c
+            if rng.randrange(3) == 0:
+                prs.append("8080:%d" % rng.choice([8081, 9001]))
+                hist["m-has-8080-key"] += 1
+            if prs and rng.randrange(3) == 0:
+                prs.append("%s:%d" % (prs[0].split(":")[1], 7777))
+                hist["m-has-chain"] += 1
             if mode == "pairs-comma":
                 prs = [x + "," for x in prs]
             argv += ["-m"] + prs
